@@ -1,210 +1,4 @@
-import SynapModel.Api
-import SynapModel.EngineStack
-import SynapModel.Generated.EngineLogic
-/-!
-# The decision logic of `tensor.py`, as read on this run, is the decision logic of the engine model
-
-`SynapModel/Generated/EngineLogic.lean` is rewritten from `/repo/synapgrad/tensor.py` by `harness/engine_logic.py` on every run.
-Each generated condition is a Boolean function of *named* atoms (`child__grad_is_None`, `node_is_self`, …); the theorems apply
-them with named arguments to the corresponding fields of the model, so both a changed formula and a changed atom break them.
-The `*_uses_src` theorems restate the transition functions of the model (`zeroCheck`, `stackStep`, `visit`, `sweep`, `finish`,
-`backward`, `mkTensor`, `setRequiresGrad`, `retainGrad`, `ctxEnter`, `ctxExit`) with the generated conditions in place: the
-engine theorems of C03 / C04 / C07 / C17 are theorems about a machine steered by exactly the conditions the source contains.
--/
-set_option linter.unusedSectionVars false
-namespace Proofs.EngineLogicTie
-open Synap Synap.Engine Synap.Gen.Engine
-
-/-! ### conditions -/
-theorem is_leaf_is_model (n : Node G) :
-    n.isLeaf = is_leaf (self_requires_grad := n.reqGrad) (self_grad_fn_is_None := n.back.isNone) := by
-  unfold Node.isLeaf is_leaf; cases n.reqGrad <;> cases n.back.isNone <;> rfl
-
-theorem zero_cond_is_model (n : Node G) (visited : Bool) :
-    (n.reqGrad && (n.grad.isNone || (!n.isLeaf && !visited))) =
-      backward_zero_cond (child_requires_grad := n.reqGrad) (child__grad_is_None := n.grad.isNone)
-        (child_is_leaf := n.isLeaf) (child_in_visited_nodes := visited) := by
-  unfold backward_zero_cond; cases n.reqGrad <;> cases n.grad.isNone <;> cases n.isLeaf <;> cases visited <;> rfl
-
-theorem release_cond_is_model (n : Node G) (v root : Nat) (retainAll : Bool) :
-    (v ≠ root && !n.isLeaf && !n.retain && !retainAll) =
-      backward_releases (node_is_self := decide (v = root)) (node_is_leaf := n.isLeaf) (node__retain_grad := n.retain)
-        (retain_grads__ := retainAll) := by
-  unfold backward_releases
-  by_cases h : v = root <;> cases n.isLeaf <;> cases n.retain <;> cases retainAll <;> simp [h]
-
-/-! ### the traversal: `zeroCheck`, `stackStep`, `visit` -/
-theorem zeroCheck_uses_src (s : DfsSt G) (c : Nat) :
-    zeroCheck s c = match s.ns[c]? with
-      | some n =>
-        if backward_zero_cond (child_requires_grad := n.reqGrad) (child__grad_is_None := n.grad.isNone)
-            (child_is_leaf := n.isLeaf) (child_in_visited_nodes := s.visited.contains c)
-        then { s with ns := setGrad s.ns c (some n.zero), trace := s.trace ++ [TrEv.zero c] }
-        else s
-      | none => s := by
-  unfold zeroCheck
-  cases h : s.ns[c]? with
-  | none => rfl
-  | some n => simp only [zero_cond_is_model]
-
-/-- one turn of the explicit-stack machine: the child is pushed exactly when the source's push condition holds -/
-theorem stackStep_uses_src (s : DfsSt G) (v c : Nat) (cs : List Nat) (st : List Frame) :
-    stackStep s (⟨v, c :: cs⟩ :: st) =
-      (let s' := zeroCheck s c
-       if backward_push_cond (child_in_visited_nodes := s'.visited.contains c)
-       then ({ s' with visited := c :: s'.visited }, ⟨c, childrenOf s'.ns c⟩ :: ⟨v, cs⟩ :: st)
-       else (s', ⟨v, cs⟩ :: st)) := by
-  simp only [stackStep, backward_push_cond]
-  cases (zeroCheck s c).visited.contains c <;> rfl
-
-/-! ### the sweep, the root gradient and the entry guard -/
-theorem root_accumulates_is_model (r : Node G) (s : DfsSt G) (root : Nat) (g : G) [Add G] :
-    (match r.isLeaf, r.grad with
-       | true, some old => setGrad s.ns root (some (old + g))
-       | _, _ => setGrad s.ns root (some g)) =
-    (if backward_root_accumulates (self_is_leaf := r.isLeaf) (self__grad_is_None := r.grad.isNone)
-     then setGrad s.ns root (some ((r.grad.getD r.zero) + g)) else setGrad s.ns root (some g)) := by
-  unfold backward_root_accumulates
-  cases r.isLeaf <;> cases h : r.grad <;> simp
-
-theorem backward_guard_is_model [Add G] (ns : Graph G) (root : Nat) (g : G) (retainAll : Bool) (r : Node G) (h : ns[root]? = some r) :
-    backward ns root g retainAll =
-      if backward_rejects (self_requires_grad := r.reqGrad) then none else finish (traverse ns root) root g retainAll := by
-  unfold backward backward_rejects; rw [h]
-
-/-- `node.grad_fn()` is called exactly when the source's condition holds (`back = none` is `grad_fn is None`) -/
-theorem calls_grad_fn_is_model (n : Node G) :
-    n.back.isSome = backward_calls_grad_fn (node_grad_fn_is_None := n.back.isNone) := by
-  unfold backward_calls_grad_fn; cases n.back <;> rfl
-
-/-- one step of the sweep: after the (guarded) `grad_fn` call the buffer is released exactly when the source's condition holds -/
-theorem sweep_uses_src [Add G] (root : Nat) (retainAll : Bool) (v : Nat) (rest : List Nat) (ns : Graph G) (tr : List TrEv)
-    (n : Node G) (h : ns[v]? = some n) :
-    sweep root retainAll (v :: rest) ns tr =
-      (let r := match n.back, n.grad with
-        | some f, some g => ((f g).bind (accumulate ns n.children)).map (fun ns' => (ns', tr ++ [TrEv.call v]))
-        | some _, none => none
-        | none, _ => some (ns, tr)
-       match r with
-       | none => none
-       | some (ns, tr) =>
-         if backward_releases (node_is_self := decide (v = root)) (node_is_leaf := n.isLeaf) (node__retain_grad := n.retain)
-             (retain_grads__ := retainAll)
-         then sweep root retainAll rest (setGrad ns v none) (tr ++ [TrEv.release v])
-         else sweep root retainAll rest ns tr) := by
-  rw [sweep, h]
-  simp only [release_cond_is_model]
-  rfl
-
-/-- the recursive traversal the engine theorems are stated for tests the same condition (it is proved equal to the
-    explicit-stack machine in `Proofs.EngineStack`) -/
-theorem visit_uses_src (f v : Nat) (s : DfsSt G) :
-    visit (f + 1) v s =
-      (if s.visited.contains v then s else
-       let s := { s with visited := v :: s.visited }
-       let ch := match s.ns[v]? with | some n => n.children | none => []
-       let s := ch.foldl (fun s c => visit f c (zeroCheck s c)) s
-       { s with ordered := s.ordered ++ [v] }) := by
-  rw [visit]
-  rfl
-
-/-! ### creation rule and setters (`SynapModel/Api.lean`) -/
-section Api
-variable {α : Type} [Zero α]
-open Synap.Api
-
-theorem mkTensor_uses_src (st : TState α) (v : NDArray α) (dt : DType) (requiresGrad : Bool) (children : List Nat)
-    (back : Option (NDArray α → Option (List (Option (NDArray α))))) :
-    mkTensor st v dt requiresGrad children back =
-      (let rg := creation_req_grad (requires_grad := requiresGrad) (gradient__ := st.modes.grad)
-       if creation_rejects (req_grad := rg) (self_is_floating_point := dt.isFloat) then none else
-       let node : Node (NDArray α) :=
-         { children := if creation_keeps_children (req_grad := rg) then children else [], reqGrad := rg,
-           back := if rg then back else none, retain := false, grad := none, zero := NDArray.zeros v.shape }
-       some ({ st with g := st.g ++ [node], vals := st.vals ++ [v], dtypes := st.dtypes ++ [dt] }, st.g.length)) := by
-  unfold mkTensor creation_req_grad creation_rejects creation_keeps_children
-  rfl
-
-theorem setRequiresGrad_uses_src (st : TState α) (i : Nat) (v : Bool) (n : Node (NDArray α)) (dt : DType)
-    (hn : st.g[i]? = some n) (hd : st.dtypes[i]? = some dt) :
-    setRequiresGrad st i v =
-      if set_requires_grad_rejects_nonleaf (self_is_leaf := n.isLeaf) then none
-      else if set_requires_grad_rejects_dtype (value := v) (self_is_floating_point := dt.isFloat) then none
-      else some { st with g := st.g.zipIdx.map (fun (m, k) => if k = i then { m with reqGrad := v } else m) } := by
-  unfold setRequiresGrad set_requires_grad_rejects_nonleaf set_requires_grad_rejects_dtype
-  rw [hn, hd]
-
-theorem retainGrad_uses_src (st : TState α) (i : Nat) (n : Node (NDArray α)) (hn : st.g[i]? = some n) :
-    retainGrad st i =
-      if retain_grad_rejects (self_requires_grad := n.reqGrad) then none
-      else some { st with g := st.g.zipIdx.map (fun (m, k) => if k = i then { m with retain := true } else m) } := by
-  unfold retainGrad retain_grad_rejects
-  rw [hn]
-end Api
-
-/-! ### grad-mode contexts -/
-theorem ctxNew_uses_src (m : Modes) :
-    (ctxNew m .noGrad).prev = (no_grad_init m.grad false).2 ∧ (ctxNew m .retainGrads).prev = (retain_grads_init m.retain false).2 :=
-  ⟨rfl, rfl⟩
-
-theorem ctxEnter_uses_src (m : Modes) (c : Ctx) :
-    ctxEnter m c = match c.kind with
-      | .noGrad => ({ m with grad := (no_grad_enter m.grad c.prev).1 }, { c with prev := (no_grad_enter m.grad c.prev).2 })
-      | .retainGrads => ({ m with retain := (retain_grads_enter m.retain c.prev).1 }, { c with prev := (retain_grads_enter m.retain c.prev).2 }) := by
-  unfold ctxEnter; cases c.kind <;> rfl
-
-theorem ctxExit_uses_src (m : Modes) (c : Ctx) :
-    ctxExit m c = match c.kind with
-      | .noGrad => { m with grad := (no_grad_exit m.grad c.prev).1 }
-      | .retainGrads => { m with retain := (retain_grads_exit m.retain c.prev).1 } := by
-  unfold ctxExit; cases c.kind <;> rfl
-
-/-! ### the public surface Python's dispatch depends on
-
-`a += b` on a `Tensor` is `a = a.__add__(b)` (so the flag rule proved for the binary operator applies to the augmented statement)
-exactly because `Tensor` defines no in-place operator method; `Parameter(…)` is created by `Tensor.__init__` (so the creation rule
-— requested flag and grad mode, float guard — applies to parameters) exactly because `Parameter` is a subclass of `Tensor` alone that
-overrides neither construction nor the flag property.  Both facts are read from the class bodies on every run. -/
-def inplaceOperators : List String :=
-  ["__iadd__", "__isub__", "__imul__", "__itruediv__", "__ifloordiv__", "__imod__", "__ipow__", "__imatmul__",
-   "__iand__", "__ior__", "__ixor__", "__ilshift__", "__irshift__"]
-
-theorem tensor_defines_no_inplace_operator : ∀ m ∈ inplaceOperators, m ∉ tensorMethods := by decide
-
-/-- attribute hooks that would bypass the property setters of the flags -/
-theorem tensor_defines_no_attribute_hook :
-    "__setattr__" ∉ tensorMethods ∧ "__getattr__" ∉ tensorMethods ∧ "__getattribute__" ∉ tensorMethods ∧ "__new__" ∉ tensorMethods ∧
-    tensorBases = [] := by decide
-
-theorem parameter_is_created_by_tensor_init :
-    parameterBases = ["Tensor"] ∧ "__init__" ∉ parameterMethods ∧ "__new__" ∉ parameterMethods ∧ "requires_grad" ∉ parameterMethods ∧
-    "__setattr__" ∉ parameterMethods ∧ "is_leaf" ∉ parameterMethods ∧ "backward" ∉ parameterMethods := by decide
-
-/-! ### the statement skeletons of the two loops are the ones `stackStep` / `sweep` were written from -/
-theorem traversal_skeleton_is_modelled : traversalSkeleton = [
-    "ordered_nodes = []",
-    "visited_nodes = set()",
-    "visited_nodes.add(self)",
-    "stack = [(self, iter(self._children))]",
-    "while stack:",
-    "  node, children = stack[-1]",
-    "  for child in children:",
-    "    if <backward_zero_cond>:",
-    "      child.zero_()",
-    "    if <backward_push_cond>:",
-    "      visited_nodes.add(child)",
-    "      stack.append((child, iter(child._children)))",
-    "      break",
-    "  else:",
-    "    ordered_nodes.append(node)",
-    "    stack.pop()"] := by decide
-
-theorem sweep_skeleton_is_modelled : sweepSkeleton = [
-    "for i, node in enumerate(reversed(ordered_nodes)):",
-    "  if <backward_calls_grad_fn>:",
-    "    node.grad_fn()",
-    "  if <backward_releases>:",
-    "    del node._grad",
-    "    node._grad = None"] := by decide
-
-end Proofs.EngineLogicTie
+import Proofs.EngineLogicTraversal
+import Proofs.EngineLogicBuffers
+import Proofs.EngineLogicFlags
+/-! all ties between `Generated/EngineLogic.lean` and the engine model (the three parts are imported separately by the Props files) -/
